@@ -56,7 +56,7 @@ impl Prop for C13 {
         }
     }
     fn rule(&self) -> &'static str {
-        "one run = one program (G_all swarm: all MAST shapes, loops with 0..n iterations driven by the host, call/syscall/dyn; or a single span whose push/non-push pattern and length 1..160 are enumerated by the run index) executed honestly; the decoder columns of the stored trace are compared row by row with the operation stream produced by an independent MAST walker that takes every split/loop/dyn decision from the trace itself and regroups span operations with its own implementation of the batching rules (NOOP only after a group-final immediate operation and one per padding group); in_span, group counter at span end, final program hash and HALT padding are checked too. Non-trivial = execution succeeded and the walk covered every executed row; distinct = digest of (source, inputs, advice)."
+        "one run = one program (standard-library procedures on random operands in 1 of 15 runs; G_all swarm: all MAST shapes, loops with 0..n iterations driven by the host, call/syscall/dyn; or a single span whose push/non-push pattern and length 1..160 are enumerated by the run index) executed honestly; the decoder columns of the stored trace are compared row by row with the operation stream produced by an independent MAST walker that takes every split/loop/dyn decision from the trace itself and regroups span operations with its own implementation of the batching rules (NOOP only after a group-final immediate operation and one per padding group); in_span, group counter at span end, final program hash and HALT padding are checked too. Non-trivial = execution succeeded and the walk covered every executed row; distinct = digest of (source, inputs, advice)."
     }
     fn generate(&self, rng: &mut Rng, _tier: Tier, index: u64) -> Value {
         if index % 3 == 0 {
@@ -91,6 +91,9 @@ impl Prop for C13 {
             };
             let src = pattern_source(pattern, len, rng.below(4));
             return json!({"prog": {"source": src, "stack_inputs": [], "advice_stack": []}, "knobs": pop::knobs(rng), "pattern": format!("{:b}", pattern), "len": len});
+        }
+        if rng.chance(1, 10) {
+            return pop::stdlib_scenario(rng);
         }
         let mut cfg = GenCfg::swarm(rng);
         cfg.w_ctrl += 2;
